@@ -103,15 +103,17 @@ STATS_RE = re.compile(r"^(\d+) states generated, (\d+) distinct states found")
 
 
 def run_mc(ctx, module, constants, invariants=(), properties=(), workers=8, timeout=900, cases_out=None,
-           simulate=None, extra_cfg=(), env=None, label=None, allow_violation=False, spec="Spec"):
+           simulate=None, extra_cfg=(), env=None, label=None, allow_violation=False, spec="Spec", coverage=True):
     """Runs TLC on spec/<module>.tla with a generated cfg. Returns dict(states, generated, cases, errors)."""
     label = label or module
     cfg = ctx.path(f"{label}.cfg")
     write_cfg(cfg, constants, invariants, properties, spec=spec, extra=extra_cfg)
     out = ctx.path(f"{label}.out")
     md = ctx.path(f"md-{label}")
-    cmd = ["timeout", str(timeout), "tlc", "-workers", str(workers), "-metadir", md, "-cleanup", "-noGenerateSpecTE",
-           "-coverage", "1", "-config", cfg]
+    cmd = ["timeout", str(timeout), "tlc", "-workers", str(workers), "-metadir", md, "-cleanup", "-noGenerateSpecTE"]
+    if coverage:
+        cmd += ["-coverage", "1"]       # (TLC's coverage collection does not terminate on some recursive specifications)
+    cmd += ["-config", cfg]
     if simulate:
         cmd += ["-simulate", simulate]
     cmd += [os.path.join(SPEC, module + ".tla")]
